@@ -154,9 +154,13 @@ fn check_field_literals(rep: &mut Report, mi: usize, ops: &PrimeC) {
             None => l.limbs.to_vec(),
             Some(f) => {
                 rep.class("literal: macro expanded in a run-time context (octal / binary)");
-                match rep.total(&format!("literal/{kind}/{form}"), || json!({"id": l.id, "modulus": info.name, "N": n, "literal": l.text, "expected": l.expect}), f) {
-                    Some(v) => v,
-                    None => continue,
+                // `f` contains nothing but the macro expansion, so whatever panics in it is the macro's doing
+                match guard(f) {
+                    Ok(v) => v,
+                    Err(p) => {
+                        rep.violation(format!("literal/{kind}/{form}/panic"), json!({"id": l.id, "modulus": info.name, "N": n, "literal": l.text, "expected": l.expect, "panic": p.msg, "at": p.site()}));
+                        continue;
+                    },
                 }
             },
         };
@@ -168,6 +172,7 @@ fn check_field_literals(rep: &mut Report, mi: usize, ops: &PrimeC) {
         rep.class(L_CANON);
         if !canonical {
             rep.violation(sig("non-canonical"), detail(json!({})));
+            continue;
         }
         let got = mont_decode(limbs, &p);
         // (a) Python
@@ -175,6 +180,7 @@ fn check_field_literals(rep: &mut Report, mi: usize, ops: &PrimeC) {
         rep.class(L_PY);
         if got != py {
             rep.violation(sig("value-vs-python"), detail(json!({"expected": l.expect, "got": got.to_string()})));
+            continue;
         }
         // (b) own parse
         let int: SInt = if l.kind == 0 { parse_literal(l.text).expect("literal syntax") } else { SInt::from(parse_limb_array(l.text).expect("limb array")) };
@@ -185,6 +191,7 @@ fn check_field_literals(rep: &mut Report, mi: usize, ops: &PrimeC) {
         rep.class_if(int.magnitude().bits() as usize > 64 * (n - 1), "literal: value fills all N limbs");
         if got != want {
             rep.violation(sig("value-vs-text"), detail(json!({"expected": want.to_string(), "got": got.to_string()})));
+            continue;
         }
         // (c) run-time constructors on the same integer
         rep.class(L_RUNTIME);
@@ -216,9 +223,12 @@ fn check_bigint_literals(rep: &mut Report, n: usize) {
             None => l.limbs.to_vec(),
             Some(f) => {
                 rep.class("literal: macro expanded in a run-time context (octal / binary)");
-                match rep.total(&format!("literal/BigInt/{}", form_of(l)), || json!({"id": l.id, "N": n, "literal": l.text, "expected": l.expect}), f) {
-                    Some(v) => v,
-                    None => continue,
+                match guard(f) {
+                    Ok(v) => v,
+                    Err(p) => {
+                        rep.violation(format!("literal/BigInt/{}/panic", form_of(l)), json!({"id": l.id, "N": n, "literal": l.text, "expected": l.expect, "panic": p.msg, "at": p.site()}));
+                        continue;
+                    },
                 }
             },
         };
@@ -230,6 +240,7 @@ fn check_bigint_literals(rep: &mut Report, n: usize) {
         rep.class(L_PY);
         if limbs.len() != n || got != py {
             rep.violation(format!("literal/BigInt/{}/value-vs-python", form_of(l)), detail(json!({"expected": l.expect, "got": got.to_string()})));
+            continue;
         }
         let int = parse_literal(l.text).expect("literal syntax");
         rep.class(L_PARSE);
